@@ -148,6 +148,8 @@ def run_impl(case):
     obs["tags"].append("cells:" + ("1" if len(m) == 1 else "2-20" if len(m) <= 20 else ">20"))
     obs["cell"] = Qs(m.cell)
     obs["len"] = len(m)
+    obs["dV"] = Q(m.dV)
+    obs["volume"] = Q(m.region.volume)
     big = len(m) > 400
     obs["big"] = big
     if not big:
@@ -313,6 +315,10 @@ def compare(case, obs, rs):
     pm = obs["mesh_json"]["region"]
     scale = max(abs(float(F(x))) for x in pm["pmin"] + pm["pmax"])
     _cmp_list("cell", obs["cell"], info["cell"], exact, dis, scale=0.0)
+    for key in ("dV", "volume"):  # products of up to four floats: a few ulp, never exact in the "big" regime
+        ok = core.close(float(F(obs[key])), info[key], rel=2**-40, scale=0.0)
+        if not ok:
+            dis.append(f"{key}: impl {obs[key]} vs model {info[key]}")
     if obs["len"] != info["len"]:
         dis.append(f"len: impl {obs['len']} vs model {info['len']}")
     if obs["big"]:
@@ -331,7 +337,7 @@ def compare(case, obs, rs):
                 _cmp_list(f"{name}[{ax}]", a, b, exact, dis, scale=scale)
         for k, (a, b) in enumerate(zip(obs["iter"], info["iter"])):
             _cmp_list(f"iter[{k}]", a, b, exact, dis, scale=scale)
-            _cmp_list(f"coordinate_field[{k}]", obs["coord_field"][k], b, exact, dis, scale=scale)
+            _cmp_list(f"coordinate_field[{k}]", obs["coord_field"][k], info["coord"][k], exact, dis, scale=scale)
     for k, a in enumerate(obs["i2p"]):
         r = next(it)
         if "ok" not in r:
